@@ -200,6 +200,31 @@ def _cells_by_value(prog, name):
     return [(k[0], v[0], v[1]) for k, v in sorted(cells.items())]
 
 
+def descriptor_cases(prog, name):
+    """{axis class: (column name, values)} and whether other axes use get_axis_descriptions - from the folded writer (helpers, tables of
+    (axis, name) rows and early returns are seen through)"""
+    evw_ = trace.trace(prog, "verif.output.Output." + name, loop_mode="unroll2")
+    found, default = {}, False
+    for e in evw_.events:
+        for k_ in ("value", "operand"):
+            v = e.get(k_)
+            if not isinstance(v, Rat) or "verif.axis." not in v.key():
+                continue
+            for a in q.atoms(v, "ifexp"):
+                cnd = a.args[0].key() if isinstance(a.args[0], Rat) else ""
+                # the positive axis test of the condition (an early-return chain gives `not(previous tests) and this one`)
+                pos = [m_ for m_ in re.finditer(r"cmp_eq\(\$self\.axis - call:verif\.axis\.(\w+)\(\),0\)", cnd)
+                       if not cnd[:m_.start()].endswith("not(")]
+                mm = pos[0] if len(pos) == 1 else None
+                th = a.args[1].as_atom("pydict") if isinstance(a.args[1], Rat) else None
+                if mm and th is not None and th.args and isinstance(th.args[0], tuple) and len(th.args[0]) == 2:
+                    kk, vv = th.args[0]
+                    found[mm.group(1)] = (symeval._strval(kk), vv.key() if isinstance(vv, Rat) else str(vv))
+            if "call:data.get_axis_descriptions($self.axis)" in v.key():
+                default = True
+    return found, default
+
+
 def check_writers(ctx):
     prog = ctx.prog
     m = prog.module("verif.output")
@@ -264,29 +289,8 @@ def check_writers(ctx):
            msg="text header construction changed")
     # sibling case analysis - by value: the folded writers (helpers seen through) contain the chain
     #   descs = {"Threshold": thresholds} if axis == Threshold() else {"Observed": ...} if axis == Obs() else ... get_axis_descriptions(axis)
-    def descriptor_cases(name):
-        evw_ = trace.trace(prog, "verif.output.Output." + name, loop_mode="unroll2")
-        found, default = {}, False
-        for e in evw_.events:
-            for k_ in ("value", "operand"):
-                v = e.get(k_)
-                if not isinstance(v, Rat) or "verif.axis." not in v.key():
-                    continue
-                for a in q.atoms(v, "ifexp"):
-                    cnd = a.args[0].key() if isinstance(a.args[0], Rat) else ""
-                    # the positive axis test of the condition (an early-return chain gives `not(previous tests) and this one`)
-                    pos = [m_ for m_ in re.finditer(r"cmp_eq\(\$self\.axis - call:verif\.axis\.(\w+)\(\),0\)", cnd)
-                           if not cnd[:m_.start()].endswith("not(")]
-                    mm = pos[0] if len(pos) == 1 else None
-                    th = a.args[1].as_atom("pydict") if isinstance(a.args[1], Rat) else None
-                    if mm and th is not None and th.args and isinstance(th.args[0], tuple) and len(th.args[0]) == 2:
-                        kk, vv = th.args[0]
-                        found[mm.group(1)] = (symeval._strval(kk), vv.key() if isinstance(vv, Rat) else str(vv))
-                if "call:data.get_axis_descriptions($self.axis)" in v.key():
-                    default = True
-        return found, default
     try:
-        dt, dc = descriptor_cases("text"), descriptor_cases("csv")
+        dt, dc = descriptor_cases(prog, "text"), descriptor_cases(prog, "csv")
     except (symeval.Undecided, AnalysisError):
         dt = dc = ({}, False)
 
